@@ -10,6 +10,9 @@ Definition dataset_check (d : str) : option nat :=
   if starts_with reserved_prefix d then Some 1
   else if negb (nochar DOT d) then Some 2
   else if negb (is_xml_tag d) then Some 3 else None.
+(* the dataset CELL of the entities row: absent or empty is the first rejection (error 0), then the three name checks *)
+Definition dataset_cell_check (c : option str) : option nat :=
+  match c with None | Some [] => Some 0 | Some d => dataset_check d end.
 Definition saveto_name_check (sv : str) : option nat :=
   if seqb (lower_ascii sv) s_name || seqb (lower_ascii sv) s_label then Some 1
   else if starts_with reserved_prefix sv then Some 2
